@@ -15,14 +15,19 @@ CLAIMED = {
             "by correspondence",
             "Coq proof (grid-DP optimality + rolling-buffer refinement) + regenerated definitions + "
             "model/implementation correspondence"),
-    "C02": ("Coq theorems: C02_off_encodings_commute (the Python->C settings hand-over preserves the model value "
-            "for every setting expressible in both engines; max_length_diff=0 refuted by witness) and "
-            "C02_c_kernels_same_band_and_buffer (band, buffer length and per-row offset of the four C kernels, "
-            "regenerated from dd_dtw.c, equal the specification band and the geometry regenerated from dtw.py); "
-            "both engines are checked against the same extracted models and against each other",
-            "cell update and pruning bookkeeping of the C kernels tied by correspondence; float stream compared "
-            "within 4 ulps, rounding not modelled",
-            "Coq proof (settings decoding commutes; C index arithmetic = model band) + regenerated definitions "
+    "C02": ("Coq theorems: C02_c_dtw_distance[_ndim][_euclidean]_as_written - the four C kernels dtw_distance*, "
+            "regenerated WHOLE from dd_dtw.c by tools/cfun.py (settings decoding, two-row buffer, cell update, "
+            "pruning bookkeeping, psi scans; Gen_cdist.v), return for every input the specification value (minimum "
+            "over admissible warping paths) cut at the bound in use (CDistTie.v: regenerated text = canonical kernel; "
+            "CDistProofs.v: canonical kernel = as-written model of dtw.distance; PyDistPrune.v: = specification); "
+            "C02_off_encodings_commute (the Python->C settings hand-over preserves the model value for every setting "
+            "expressible in both engines; max_length_diff=0 refuted by witness); C02_c_kernels_same_band_and_buffer; "
+            "both engines are checked against the same extracted models and against each other, and the extracted "
+            "regenerated kernels against the compiled ones on struct-level inputs",
+            "exact arithmetic over Z + infinity (rounding, NaN and idx_t overflow not modelled); the functions the "
+            "kernels call (Euclidean bound) are oracle parameters; float stream compared within 4 ulps; pyx glue and "
+            "matrix routines by correspondence",
+            "Coq proof (regenerated C kernels = specification; settings decoding commutes) + regenerated definitions "
             "(Python and C) + engine-vs-engine and engine-vs-model correspondence"),
     "C04": ("Coq theorems: every cell of the model matrix is the optimum over partial paths, shape, out-of-band = "
             "inf; C04_code_matrix_is_spec / _with_bound / _code_value: dtw.warping_paths AS WRITTEN (PyWps.v) "
@@ -39,12 +44,15 @@ CLAIMED = {
     "C03": ("Coq theorems: any pruning that skips only cells whose optimum exceeds the bound computes all cells "
             "below the bound exactly (prune_sound); C03_pruned_code_model_exact: the "
             "sc/ec/ec_next/smaller_found/break bookkeeping of dtw.distance AS WRITTEN returns 'd if d<=B else "
-            "inf' for every bound B and every setting (PyDistPrune.v); the Euclidean bound never cuts the "
-            "distance where ED is a valid upper bound; the implementation's max_dist/use_pruning results (py/C "
-            "distance, warping_paths, distance matrices) are compared with the specification and, for the single- "
-            "pair routines of both engines, with the as-written model",
+            "inf' for every bound B and every setting (PyDistPrune.v); C03_c_kernel_result_is_bounded_value: the "
+            "same for the C kernel dtw_distance regenerated whole from dd_dtw.c (Gen_cdist.v; the other three "
+            "kernels under C02); the Euclidean bound never cuts the distance where ED is a valid upper bound; the "
+            "implementation's max_dist/use_pruning results (py/C distance, warping_paths, distance matrices) are "
+            "compared with the specification and, for the single-pair routines of both engines, with the "
+            "as-written model",
             "bookkeeping of the C warping-paths kernels: abstract theorem + correspondence",
-            "Coq proof (PrunedDTW: abstract soundness + refinement of the as-written routine) + correspondence"),
+            "Coq proof (PrunedDTW: abstract soundness + refinement of the as-written Python routine and of the "
+            "regenerated C kernel) + correspondence"),
     "C09": ("Coq theorems C09_lb_keogh_le_dtw and C09_dtw_le_euclidean for all series/windows/penalties; lb_keogh_model "
             "uses the index arithmetic regenerated from dtw.lb_keogh; ed.distance/ed_cc/lb_keogh (py and C) compared "
             "with the extracted models; the sandwich re-checked on implementation values",
@@ -91,8 +99,11 @@ CLAIMED = {
             "dtw_distance* kernels stay inside the two-row buffer; the compact warping-paths layout keeps every band "
             "cell inside its row (CWps.v); the FILL loops of the four warping-paths kernels (CFill.v) and the EXPAND "
             "loops of both slice routines (CExpand.v) address the array through that layout, inside their rows / the "
-            "output block, for every length, window, slice; skip loops bounded; all exported routines additionally run "
-            "under AddressSanitizer+UBSan with exact-size caller buffers",
+            "output block, for every length, window, slice; skip loops bounded; "
+            "C08_c_dtw_distance*_accesses_in_bounds: in the four distance kernels regenerated WHOLE from dd_dtw.c "
+            "(Gen_cdist.v, one bounds conjunct per array access) every read and write of the buffer and of the two "
+            "series is in range, for all inputs and any content of the fresh buffer; all exported routines "
+            "additionally run under AddressSanitizer+UBSan with exact-size caller buffers",
             "partial: dtw_wps_loc, negativize/positivize, dtw_wps_max, DBA and glue are sanitizer correspondence only "
             "(the traceback loops are proved under C05)",
             "Coq proof over translator output (index arithmetic of distance, fill and expand loops) + ASan/UBSan "
